@@ -15,7 +15,7 @@ RULE = ("Hypothesis draws (strategy among the six + FunctionRFA with a generated
         "2..60 points with six spacing kinds as int/float arrays or lists, n in 2..64, parameters in the documented "
         "ranges); the result of <Strategy>(...).rfa() and of Weaver.recreate_from_average(...).get() is checked "
         "against the grid predicate. Non-trivial = non-uniform x or non-default parameters; distinct = distinct "
-        "input. Rejection: n in {1, 0, -3, 1.5} for every strategy.")
+        "input. Rejection: integer n in {1, 0, -1, -3} for every strategy (how a non-integral factor is refused is left open).")
 ASSUMPTIONS = ["x strictly increasing; CubicSpline fed gap ratios <= 1e2",
                "equal spacing inside a gap is judged to 4 ulp of max|x| of the gap (np.linspace rounding)"]
 TECHNIQUE = "Hypothesis-generated inputs against a structural validity predicate (types, length, every n-th " \
@@ -179,7 +179,7 @@ def weaver_history(case, x, y, wkw):
 @st.composite
 def reject_strategy(draw, ctx):
     base = draw(rfagen.rfa_case(ctx, m_hi=8))
-    base["n"] = draw(st.sampled_from([1, 0, -3, 1.5, 1.999]))
+    base["n"] = draw(st.sampled_from([1, 0, -1, -3]))
     return base
 
 
